@@ -36,6 +36,21 @@ pub fn engine_kind(kind: usize) -> Engine {
     if kind == 9 {
         return engine_pk(&[0]);
     }
+    if kind == 4 || kind == 5 {
+        // interpolated voice sets (2 and 3 voices with different trees): the weighted-average path is shared code too
+        let cfg = voice_cfg(0);
+        let n = if kind == 4 { 2 } else { 3 };
+        let voices = (0..n).map(|v| Arc::new(load_voice_bytes(&GenCfg { variant: v as u32, ..cfg.clone() }.bytes()).expect("generated voice"))).collect();
+        let mut e = engine_from_voices(voices).expect("voice set");
+        e.condition.set_beta(0.3);
+        let w: Vec<f64> = if n == 2 { vec![0.25, 0.75] } else { vec![0.5, 0.25, 0.25] };
+        let iw = e.condition.get_interporation_weight_mut();
+        iw.set_duration(&w).unwrap();
+        for i in 0..3 {
+            iw.set_parameter(i, &w).unwrap();
+        }
+        return e;
+    }
     let mut e = engine_from_bytes(&voice_cfg(kind).bytes()).expect("generated voice");
     e.condition.set_beta(0.3);
     if kind >= 2 {
@@ -109,6 +124,7 @@ pub struct HistModel {
     transitions: AtomicU64,
     outcomes: Mutex<std::collections::BTreeSet<u64>>,
     checked_last: AtomicU64,
+    monitor: Arc<HangMonitor>,
 }
 
 pub fn replay_hist(base: &Engine, utts: &[Vec<String>], baselines: &HashMap<(u8, usize), Vec<f64>>, hist: &[Op], outcomes: Option<&Mutex<std::collections::BTreeSet<u64>>>) -> Result<(), String> {
@@ -236,6 +252,7 @@ impl Model for HistModel {
             Op::Reset(k) => mask &= !(1 << k),
             _ => {}
         }
+        let _watch = self.monitor.enter(|| format!("history {:?}", hist));
         let bad = replay_hist(&self.base, &self.utts, &self.baselines, &hist, Some(&self.outcomes)).err();
         Some(HState { hist, live, mask, bad })
     }
@@ -546,11 +563,12 @@ fn setter_alphabet(ns: usize) -> Vec<Act> {
 }
 
 pub fn run(tier: Tier) -> i32 {
-    let rep = Report::new("C03", tier, "model_checking");
-    rep.set_rule("HIST (stateright BFS, no state merging): all call histories to the depth bound over {synthesize(u) for 3 utterances, clone+synthesize, open a generator (<= 2 live), step it, finish it, set/reset 5 condition setters} on one real engine, every output compared bit-exactly with a baseline computed by a fresh child process for (condition values, labels); SCHED: for each tuple of programs {synthesize(u1), synthesize(u2), generator(u1) stepped, clone().synthesize(u1)} on one shared engine (mel-cepstral and LSP voices with GV, postfilter and mixed excitation), every schedule with <= B preemptions at verif-hooks sites under a controlled scheduler (one agent runs at a time), outputs compared with solo baselines; all sequences of <= 2/3 setter calls followed by one canonical assignment vs a fresh engine; compile-time Send/Sync/Clone assertion; non-trivial = history/schedule with at least two synthesis operations");
+    let rep: &'static Report = Box::leak(Box::new(Report::new("C03", tier, "model_checking")));
+    let monitor = Arc::new(HangMonitor::start(rep, "C03 call history"));
+    rep.set_rule("HIST (stateright BFS, no state merging): all call histories to the depth bound over {synthesize(u) for 3 utterances, clone+synthesize, open a generator (<= 2 live), step it, finish it, set/reset 5 condition setters} on one real engine, every output compared bit-exactly with a baseline computed by a fresh child process for (condition values, labels); SCHED: for each tuple of programs {synthesize(u1), synthesize(u2), generator(u1) stepped, clone().synthesize(u1)} on one shared engine (mel-cepstral and LSP voices with GV, postfilter and mixed excitation; an interpolated 2-voice set), every schedule with <= B preemptions at verif-hooks sites under a controlled scheduler (one agent runs at a time), outputs compared with solo baselines; all sequences of <= 2/3 setter calls followed by one canonical assignment vs a fresh engine; compile-time Send/Sync/Clone assertion; non-trivial = history/schedule with at least two synthesis operations");
     rep.assume("preemptions only at verif-hooks sites (fine: every site, impulse-response loop thinned to every 191st iteration; coarse: stage boundaries); at most 3 controlled threads and 2 preemptions; weak-memory effects are not modelled");
-    static_part(&rep);
-    source_scan(&rep);
+    static_part(rep);
+    source_scan(rep);
     let utts = utterances();
     // ---------- HIST ----------
     let masks: Vec<u8> = (0..(1u8 << SETTERS)).collect();
@@ -567,7 +585,7 @@ pub fn run(tier: Tier) -> i32 {
         let distinct_base: std::collections::BTreeSet<u64> = baselines.values().map(|w| hash_f64s(w)).collect();
         let mut counts = Vec::new();
         for threads in [nthreads(), 4] {
-            let model = HistModel { base: base.clone(), utts: utts.clone(), baselines: baselines.clone(), depth, transitions: Default::default(), outcomes: Default::default(), checked_last: Default::default() };
+            let model = HistModel { base: base.clone(), utts: utts.clone(), baselines: baselines.clone(), depth, transitions: Default::default(), outcomes: Default::default(), checked_last: Default::default(), monitor: monitor.clone() };
             let checker = model.checker().threads(threads).target_max_depth(depth + 2).spawn_bfs().join();
             counts.push(checker.unique_state_count());
             rep.guard(checker.model().checked_last.load(Ordering::Relaxed) > 0, "invariant never evaluated on histories at the depth bound");
@@ -659,13 +677,15 @@ pub fn run(tier: Tier) -> i32 {
             }
             jobs.push((1, vec![0, 1], 1, 0, 40));
             jobs.push((1, vec![1, 2], 1, 0, 40));
+            jobs.push((4, vec![0, 1], 1, 0, 40));
+            jobs.push((4, vec![0, 2], 2, 1, 40));
             for t in [vec![0, 1], vec![0, 0], vec![0, 2]] {
                 jobs.push((0, t.clone(), 2, 1, 40));
             }
             jobs.push((0, vec![0, 1, 2], 1, 1, 40));
         }
         Tier::Thorough => {
-            for kind in [0usize, 1] {
+            for kind in [0usize, 1, 4] {
                 for t in &tuples {
                     jobs.push((kind, t.clone(), 1, 0, 240));
                     jobs.push((kind, t.clone(), if t.len() == 2 { 2 } else { 1 }, 1, 240));
@@ -674,6 +694,7 @@ pub fn run(tier: Tier) -> i32 {
             for t in [vec![0, 1], vec![0, 0], vec![0, 2]] {
                 jobs.push((0, t.clone(), 2, 0, 420));
             }
+            jobs.push((5, vec![0, 1], 1, 0, 240));
         }
     }
     let sched_results: Mutex<Vec<Value>> = Mutex::new(Vec::new());
@@ -729,7 +750,7 @@ pub fn run(tier: Tier) -> i32 {
     // threads (so engine-held state starts cold); the reference comes from a different engine.
     {
         let corpus = labels::corpus();
-        let cases: Vec<(usize, Vec<String>, usize)> = vec![(9, corpus[0..tier.pick(6, 12)].to_vec(), tier.pick(6, 20)), (0, utts[1].clone(), tier.pick(20, 100)), (1, utts[1].clone(), tier.pick(20, 100))];
+        let cases: Vec<(usize, Vec<String>, usize)> = vec![(9, corpus[0..tier.pick(6, 12)].to_vec(), tier.pick(6, 20)), (0, utts[1].clone(), tier.pick(20, 100)), (1, utts[1].clone(), tier.pick(20, 100)), (4, utts[1].clone(), tier.pick(20, 100))];
         let mut total_runs = 0u64;
         let mut mismatches = 0u64;
         for (kind, u, rounds) in &cases {
@@ -746,16 +767,16 @@ pub fn run(tier: Tier) -> i32 {
                         let bad = &bad;
                         let reference = &reference;
                         s.spawn(move || {
+                            // every thread passes the barrier before it touches the engine (a panic in the code
+                            // under test must not leave the others waiting), then all of them run the whole call
+                            barrier.wait();
                             let r = catch(|| {
                                 if (t + round) % 3 == 2 {
                                     // a clone used concurrently with the original
                                     let c = (*e).clone();
-                                    barrier.wait();
                                     c.synthesize(&u[..]).ok()
                                 } else {
-                                    let g = e.generator(&u[..]).ok();
-                                    barrier.wait();
-                                    g.map(|g| g.generate_all())
+                                    e.generator(&u[..]).ok().map(|g| g.generate_all())
                                 }
                             });
                             match r {
@@ -780,7 +801,7 @@ pub fn run(tier: Tier) -> i32 {
     rep.sample_last(json!({"setter_history": ["Gv(1, 1e300)", "Rate(18446744073709551615)", "<canonical assignment>"]}));
     rep.guard(total_sched > 50, "too few schedules explored");
     rep.guard(multi_trace > 0, "no exploration saw two different interleavings");
-    rep.finish()
+    rep.finish_ref()
 }
 
 pub fn replay(v: &Value) -> i32 {
